@@ -154,10 +154,21 @@ def run_and_validate_sharded(rep, wd, descs_path, label, shards=8, timeout=3600)
     return events, bad
 
 
+# C17: when set ("1" = windows end at an inaccessible page, "2" = start after one) every HAL call runs in child processes
+# over guard-page backed buffers; descriptors whose execution dies on a signal are collected in SIGNALS
+GUARD = None
+SIGNALS = []
+
+
 def _run_validate_any(rep, wd, descs_path, label, timeout):
     """like run_and_validate but the number of events is whatever the harness expands to"""
     ev_path = os.path.join(wd, label + ".events.ndjson")
-    p = common.harness(["hal", descs_path, ev_path], env={"VERIF_SEED": common.seed()}, timeout=timeout)
+    if GUARD:
+        p = common.harness(["guardrun", "hal", descs_path, ev_path], env={"VERIF_SEED": common.seed(), "VERIF_GUARD": GUARD}, timeout=timeout)
+        if p.returncode == 0:
+            SIGNALS.extend(common.read_ndjson(ev_path + ".signals.ndjson"))
+    else:
+        p = common.harness(["hal", descs_path, ev_path], env={"VERIF_SEED": common.seed()}, timeout=timeout)
     if p.returncode != 0:
         raise ToolError("harness hal failed rc=%d\n%s" % (p.returncode, p.stdout[-3000:]))
     with open(ev_path) as f:
